@@ -4,7 +4,10 @@ use crossbeam::queue::SegQueue;
 
 use std::sync::atomic::{AtomicUsize, Ordering};
 use std::sync::Arc;
+#[cfg(not(kani))]
 use std::sync::{LockResult, PoisonError};
+#[cfg(kani)]
+use crate::verif_shim::poison::{LockResult, PoisonError};
 use std::time::Duration;
 
 use super::blocking::SyncBlocker;
@@ -384,3 +387,7 @@ mod tests {
         // assert_eq!(rx.try_recv(), Err(TryRecvError::Disconnected));
     }
 }
+
+#[cfg(kani)]
+#[path = "/verif/harness/may/sync_condvar.rs"]
+mod verif_kani;
